@@ -16,6 +16,8 @@ pub struct Prop {
     pub key: String,
     /// written quoted
     pub quoted: bool,
+    /// written as a computed string literal key: `["key"]`
+    pub computed: bool,
     pub kind: Kind,
     pub optional: bool,
     /// member type text (for properties / getters)
@@ -24,7 +26,9 @@ pub struct Prop {
 
 impl Prop {
     fn key_text(&self) -> String {
-        if self.quoted {
+        if self.computed {
+            format!("[\"{}\"]", self.key)
+        } else if self.quoted {
             format!("\"{}\"", self.key)
         } else {
             self.key.clone()
@@ -111,9 +115,15 @@ impl<'a, 'b> TypeGen<'a, 'b> {
         };
         let optional = kind != Kind::Getter && self.c.chance(1, 3);
         let ty = self.c.choose(MEMBER_TYPES).to_string();
+        // a computed string-literal key spells the same key
+        let computed = kind == Kind::Property && self.c.chance(1, 10);
+        if computed {
+            self.label("computed-literal-key");
+        }
         Some(Prop {
             key,
             quoted,
+            computed,
             kind,
             optional,
             ty,
@@ -488,6 +498,27 @@ impl<'a, 'b> RtGen<'a, 'b> {
             ("RegExp", &["RegExp"]),
             ("Error", &["Error"]),
         ];
+        // keyword types the statement does not name (`undefined`, `void`): no constructor is
+        // required, the null value is tolerated; a callable object type may also be given Object
+        if self.c.chance(1, 16) {
+            self.label("atom=undefined/void/callable-object");
+            return match self.c.pick(3) {
+                0 | 1 => RtType {
+                    text: if self.c.bool() { "undefined".into() } else { "void".into() },
+                    ctors: Some(vec![]),
+                    loose: Some((vec![], vec!["null".into()])),
+                    inhabitants: vec![],
+                    depth: 0,
+                },
+                _ => RtType {
+                    text: "{ (): void; extra: string }".into(),
+                    ctors: Some(vec!["Function".into()]),
+                    loose: Some((vec!["Function".into()], vec!["Function".into(), "Object".into()])),
+                    inhabitants: vec![inh("Function")],
+                    depth: 0,
+                },
+            };
+        }
         let i = self.c.pick(atoms.len() + 2);
         if i >= atoms.len() {
             let t = if i == atoms.len() { "any" } else { "unknown" };
@@ -566,9 +597,34 @@ impl<'a, 'b> RtGen<'a, 'b> {
                 // array / tuple indexing
                 let inner = self.ty(depth + 1);
                 self.label("array-index");
-                let text = match self.c.pick(4) {
+                let text = match self.c.pick(5) {
                     0 => format!("({})[][number]", inner.text),
                     1 => format!("[{}, {}][0]", paren_if_fn(&inner.text), "boolean"),
+                    4 => {
+                        // optional tuple element: `T | undefined`
+                        self.label("optional-tuple-element");
+                        let (ctors, loose) = {
+                            let c = inner.ctors.clone();
+                            match c {
+                                None => (None, None),
+                                Some(cs) => {
+                                    let (must, may) = inner.loose.clone().unwrap_or((cs.clone(), cs.clone()));
+                                    let mut may = may;
+                                    if !may.contains(&"null".to_string()) {
+                                        may.push("null".into());
+                                    }
+                                    (Some(cs), Some((must, may)))
+                                }
+                            }
+                        };
+                        return RtType {
+                            text: format!("[boolean, ({})?][1]", inner.text),
+                            ctors,
+                            loose,
+                            inhabitants: inner.inhabitants.clone(),
+                            depth: inner.depth + 1,
+                        };
+                    }
                     2 => format!("Array<{}>[number]", inner.text),
                     _ => {
                         // tuple[number] = union of elements
@@ -596,10 +652,33 @@ impl<'a, 'b> RtGen<'a, 'b> {
                 let a = self.ty(depth + 1);
                 let b = self.ty(depth + 1);
                 let n = self.fresh("H");
-                if self.c.bool() {
-                    self.decls.push(format!("interface {n} {{ a: {}; \"b-2\": {}; m(): void }}", a.text, b.text));
+                let iface = self.c.bool();
+                if self.c.chance(1, 5) {
+                    // index signature: `H[string]` is the member type
+                    self.label("index-signature-index");
+                    if iface {
+                        self.decls.push(format!("interface {n} {{ [k: string]: {} }}", a.text));
+                    } else {
+                        self.decls.push(format!("type {n} = {{ [k: string]: {} }};", a.text));
+                    }
+                    return RtType {
+                        text: format!("{n}[string]"),
+                        depth: a.depth + 1,
+                        ..a
+                    };
+                }
+                let getter = self.c.chance(1, 3);
+                // (`a` written as a getter: same value type)
+                let a_member = if getter {
+                    self.label("getter-member-index");
+                    format!("get a(): {}", a.text)
                 } else {
-                    self.decls.push(format!("type {n} = {{ a: {}; \"b-2\": {}; m(): void }};", a.text, b.text));
+                    format!("a: {}", a.text)
+                };
+                if iface {
+                    self.decls.push(format!("interface {n} {{ {a_member}; \"b-2\": {}; m(): void }}", b.text));
+                } else {
+                    self.decls.push(format!("type {n} = {{ {a_member}; \"b-2\": {}; m(): void }};", b.text));
                 }
                 self.label("property-index");
                 match self.c.pick(4) {
@@ -740,7 +819,8 @@ impl<'a, 'b> RtGen<'a, 'b> {
                             .cloned()
                             .collect()
                     };
-                    let may = ac.clone().unwrap_or_default();
+                    // (bounds of the part itself count when it only has bounds)
+                    let may = a.loose.as_ref().map(|l| l.1.clone()).unwrap_or(ac.clone().unwrap_or_default());
                     let must: Vec<String> = vec![]; // containment only; inhabitant acceptance carries the weight
                     RtType {
                         text: format!("Exclude<{}, {}>", a.text, b.text),
@@ -760,7 +840,11 @@ impl<'a, 'b> RtGen<'a, 'b> {
                             .cloned()
                             .collect()
                     };
-                    let may: Vec<String> = [ac.clone().unwrap_or_default(), bc.clone().unwrap_or_default()].concat();
+                    let may: Vec<String> = [
+                        a.loose.as_ref().map(|l| l.1.clone()).unwrap_or(ac.clone().unwrap_or_default()),
+                        b.loose.as_ref().map(|l| l.1.clone()).unwrap_or(bc.clone().unwrap_or_default()),
+                    ]
+                    .concat();
                     let must: Vec<String> = vec![]; // containment only; inhabitant acceptance carries the weight
                     let unchecked = ac.is_none() || bc.is_none();
                     RtType {
